@@ -257,5 +257,5 @@ def run(ctx, chk):
     want_leaf = {(False, v) for v in IW.values()} | {(True, v) for v in FW.values()}
     chk.ob("C11.shape", "leaf arms cover the four integer and four float/ctrl widths", want_leaf <= seen_leaf, where, fn=f.name, key="leaf:all",
            detail="" if want_leaf <= seen_leaf else "missing %s" % sorted(want_leaf - seen_leaf))
-    chk.floor("C11.shape", "leaf copy paths", nleaf, 10)
+    chk.floor("C11.shape", "leaf copy paths", nleaf, 8)
     chk.exhaustive = True
